@@ -1779,6 +1779,7 @@ enum KOp {
     Poll,
     Respond(usize, usize),
     Settle,
+    Flush,
 }
 
 fn k_apply(w: &mut World, op: &KOp, next_slot: &mut usize) {
@@ -1839,6 +1840,9 @@ fn k_apply(w: &mut World, op: &KOp, next_slot: &mut usize) {
         KOp::Settle => {
             w.settle(300, true);
         }
+        KOp::Flush => {
+            w.flush();
+        }
     }
 }
 
@@ -1858,7 +1862,8 @@ fn k_gen(s: &mut Src) -> (Vec<KOp>, bool) {
         }
     }
     for _ in 0..n {
-        let op = match s.weighted(&[5, 10, 3, 3, 2, 8, 6, 3, 2]) {
+        let op = match s.weighted(&[5, 10, 3, 3, 2, 8, 6, 3, 2, 1]) {
+            9 => KOp::Flush,
             8 => KOp::SendAll(s.chance(128)),
             0 => KOp::Connect,
             1 => {
@@ -2260,12 +2265,37 @@ fn c13_server(input: &Input, obs: &mut Obs) -> Result<(), Fail> {
     let mut done = 0;
     let r = (|| -> Result<(), (String, String)> {
         let c = 0;
+        // the limit in force when the client connects decides which requests qualify
+        let lim = [crate::DEFAULT_LIMIT, crate::DEFAULT_LIMIT, 5, 100, 1024][s.below(5)];
+        if lim != crate::DEFAULT_LIMIT {
+            w.set_limit(lim);
+            obs.label("non_default_limit");
+        }
         w.connect(c);
         w.settle(100, true);
         let rounds = s.range(1, 4);
         for _ in 0..rounds {
             let expect = s.chance(200);
-            let n = if s.chance(40) { 0 } else { s.range(1, 3000) };
+            let n = if s.chance(40) { 0 } else if lim < 2000 && s.chance(128) { [lim.saturating_sub(1), lim, lim + 1][s.below(3)].max(1) } else { s.range(1, 3000) };
+            if n > lim {
+                // over the limit: a 400 and no interim response; the headers alone decide
+                let spec = ReqSpec { method: 1, version: 1, body: n, expect, extra_headers: 0, body_kind: 0 };
+                let probe = w.compose(c, &spec);
+                let j = w.clients[c].composed.len() - 1;
+                let before = audit_client(&w, c)?;
+                w.clients[c].dirty = true;
+                w.send_raw(c, &probe[..probe.len() - n]);
+                w.settle(200, true);
+                let a = audit_client(&w, c)?;
+                if a.n100 != before.n100 {
+                    return Err(("interim".into(), format!("r{} declares {} bytes over the limit {} (Expect: {}): an interim response was sent", j, n, lim, expect)));
+                }
+                if a.n400 != before.n400 + 1 {
+                    return Err(("no-400".into(), format!("r{} declares {} bytes over the limit {}: {} new 400 responses", j, n, lim, a.n400 - before.n400)));
+                }
+                obs.label("expect_over_limit_400_no_100");
+                continue;
+            }
             let spec = ReqSpec { method: if n == 0 { s.below(3) as u8 } else { 1 + s.below(2) as u8 }, version: s.below(2) as u8, body: n, expect, extra_headers: s.below(3), body_kind: s.below(3) };
             let probe = w.compose(c, &spec);
             w.clients[c].composed.pop();
